@@ -107,6 +107,13 @@ class C11(Check):
                     try:
                         r = repr(tbl)
                         m = re.search(r"shape: \((\d+), (\d+)\)", r)
+                        if "export failed" in r and not m:
+                            # repr runs its own (preview) export; an engine bug in there is reported inside the text
+                            em = re.search(r"export failed\s+(\w+): (.*)", r, re.S)
+                            fake = type(em.group(1), (Exception,), {})(em.group(2)) if em else None
+                            if fake is not None and engine_quirk(fake, run.case2, run.ref):
+                                out.count("engine_quirk:in_repr")
+                                continue
                         if m and int(m.group(2)) == len(cols) and int(m.group(1)) != df.height and (
                                 build.export_polars_noopt(tbl).height == int(m.group(1))):
                             out.count("engine_quirk:polars_optimizer")  # the optimised plan returns extra rows
@@ -114,6 +121,9 @@ class C11(Check):
                             out.fail("metadata", "polars:repr-shape", f"repr shape {m.group(0) if m else None} vs frame ({df.height}, {len(cols)})")
                     except BaseException as ex:  # noqa: BLE001
                         reraise_control(ex)
+                        if exc_name(ex) == "PanicException":
+                            out.count("engine_quirk:polars_optimizer_panic")  # inside repr's own export (DESIGN 4.15 g)
+                            continue
                         out.fail("internal-error", f"polars:repr:{exc_name(ex)}", f"repr raised {exc_name(ex)}: {ex}")
 
 
